@@ -825,6 +825,8 @@ func main() {
 				ins = append(ins, Input{Svc: "ssh-simulator", Proto: "tcp", N: 1, Kind: "sweep", Sweep: &SweepIn{Svc: "ssh-simulator", Scenario: 4, N: 1, Req: fmt.Sprintf("%d,%d", mode, shape)}})
 			}
 		}
+		// tftp uploads of every length around the block size; the upload state must be released
+		ins = append(ins, Input{Svc: "tftp-upload", Proto: "udp", N: len(tftpUploadLengths), Kind: "sweep", Sweep: &SweepIn{Svc: "tftp-upload", Scenario: 30, N: len(tftpUploadLengths)}})
 		// the real server: recovered panics and a shared port with silent clients (waits out the
 		// server's own 30 s idle timeout: beside the pool)
 		ins = append(ins, Input{Svc: "deploy", Proto: "tcp", N: len(deploySteps()), Kind: "sweep", Slow: true, Sweep: &SweepIn{Svc: "deploy", Scenario: 20, N: len(deploySteps())}})
